@@ -280,7 +280,7 @@ def check(c):
     quick = c.tier == 'quick'
     c.rule = ('L1b: limb vectors dense around 2^(64k) in Small / Large / Large-with-leading-zero-limbs form through BigUint and/or/xor/shl/shr/try_as_usize/factorial/fibonacci/to_words; '
               'L1q: raw rationals (integer, n*k/k, negative, fractional, negative zero, imaginary, pi-multiples) through Number factorial/bitwise/mod/nCr/nPr/floor/ceil/round/try_as_usize/fibonacci/words; '
-              'L2: source text through evaluate (integers to 2^512 written as literals, hex, sums, (v+2^64k)-2^64k, (k*v)/k; rationals near integers and beyond 2^64; all 0<=r<=n<=N; words incl. 10^3k+-1; roman; char/codepoint); '
+              'L2: source text through evaluate (arguments also carrying dimensionless scaled units (dozen, %, hundred, k, byte/bit, m/cm, kg/(2 kg)), dimensioned units, and passed through variables; integers to 2^512 written as literals, hex, sums, (v+2^64k)-2^64k, (k*v)/k; rationals near integers and beyond 2^64; all 0<=r<=n<=N; words incl. 10^3k+-1; roman; char/codepoint); '
               'non-trivial = multi-limb or non-canonical operand, shift across a limb boundary, n>20 for factorial-like, non-integer rounding argument, n>=1000 for words, n>=4 for roman, non-ASCII scalar; distinct by request line')
     ok = c.proof(['C10'], extra_targets=['Extract/XIntfns.vo'])
     if c.tier == 'thorough' and ok:
@@ -292,6 +292,7 @@ def check(c):
         l1_complex(c, r, quick)
         l2_numeric(c, r, quick)
         l2_text(c, r, quick)
+        l2_units(c, r, quick)
         witnesses(c)
     except TooManyHangs as e:
         c.notes.append('check stopped early: %s' % e)
@@ -903,6 +904,157 @@ def l2_numeric(c, r, quick):
         if not (i[0] == 'ok' and model_out(s) == ('val', parse_int_text(i[1]))):
             viol(c, 'coq-spec-mismatch', {'kind': 'impl-vs-spec', 'layer': 'L2', 'expr': e, 'impl': o[:200], 'coq_spec': s[:200]})
     c.sample({'layer': 'L2', 'expr': cases[40][1][:160], 'impl': impl[40][:160]})
+
+
+# ---------------------------------------------------------------- L2: arguments carrying units
+
+SCALED = [('(%s dozen)', Fraction(12)), ('(%s%%)', Fraction(1, 100)), ('(%s hundred)', Fraction(100)), ('(%s thousand)', Fraction(1000)),
+          ('(%s k)', Fraction(1000)), ('(%s byte / bit)', Fraction(8)), ('(%s m / cm)', Fraction(100)), ('(%s kg / (2 kg))', Fraction(1, 2)),
+          ('(%s dozen / dozen)', Fraction(1)), ('(%s percent)', Fraction(1, 100))]
+DIMENSIONED = ['(%s kg)', '(%s m)', '(%s s^-1)', '(%s kg / m)', '(%s bytes)']
+
+def coef_text(cf, allow_frac=True):
+    if cf.denominator == 1:
+        return str(cf.numerator) if cf >= 0 else '(%d)' % cf.numerator
+    if 1000 % cf.denominator == 0:
+        t = '%.3f' % float(cf)
+        t = t.rstrip('0')
+        return t if cf >= 0 else '(%s)' % t
+    return '(%d/%d)' % (cf.numerator, cf.denominator) if allow_frac else None
+
+def unit_args(r, want_small=True):
+    """(text, value or None for a dimensioned quantity, coefficient, scale or None)"""
+    coefs = [Fraction(x) for x in (0, 1, 2, 3, 4, 5, 6, 7, 10, 12, 25, 50, 100, 300)] + \
+            [Fraction(1, 2), Fraction(3, 2), Fraction(5, 4), Fraction(5, 2), Fraction(7, 3), Fraction(5, 6), Fraction(1, 3), Fraction(-3), Fraction(-5, 2)]
+    cf = r.choice(coefs)
+    if r.random() < 0.75:
+        fmt, sc = r.choice(SCALED)
+        t = coef_text(cf, allow_frac='%%' not in fmt and 'percent' not in fmt)
+        if t is None:
+            t, cf = '3', Fraction(3)
+        return (fmt % t, cf * sc, cf, sc)
+    fmt = r.choice(DIMENSIONED)
+    return (fmt % coef_text(cf), None, cf, None)
+
+def l2_units(c, r, quick):
+    """every integer-domain function on arguments that carry a dimensionless scaled unit (the function must
+    see the scaled value), a dimensioned unit (domain error; floor/ceil/round keep the unit), also through a
+    variable"""
+    cases = []     # (op, expr, kind, payload)
+    def wrap(expr_fmt, args):
+        """optionally route the unit-carrying arguments through variables"""
+        if r.random() < 0.35:
+            names = ['x', 'y'][:len(args)]
+            return '; '.join('%s = %s' % (n, a) for n, a in zip(names, args)) + '; ' + expr_fmt % tuple(names)
+        return expr_fmt % tuple(args)
+    plain = lambda v: ('(%d)' % v, Fraction(v), Fraction(v), Fraction(1))
+    n = 700 if quick else 12000
+    for _ in range(n):
+        kind = r.choice(['factorial', 'fibonacci', 'words', 'roman', 'char', 'round', 'bin', 'bin', 'bin'])
+        a = unit_args(r)
+        if kind == 'bin':
+            op = r.choice(['and', 'or', 'xor', 'shl', 'shr', 'mod', 'ncr', 'npr'])
+            b = unit_args(r) if r.random() < 0.5 else plain(r.choice([0, 1, 2, 3, 5, 12]))
+            if r.random() < 0.3:
+                a, b = b, a
+            va, vb = a[1], b[1]
+            if va is not None and vb is not None:
+                if op == 'shl' and is_nat(vb) and vb > 2000:
+                    continue
+                if op in ('ncr', 'npr') and is_nat(va) and va > 400:
+                    continue
+                if op in ('ncr', 'npr') and is_nat(vb) and vb > 2000:
+                    continue
+                if op in ('ncr', 'npr') and va.denominator == 1 and vb.denominator == 1 and va - vb > 2000:
+                    continue
+            sym = {'and': '&', 'or': '|', 'xor': 'xor', 'mod': 'mod', 'shl': '<<', 'shr': '>>', 'ncr': 'nCr', 'npr': 'nPr'}[op]
+            cases.append((op, wrap('%s ' + sym + ' %s', [a[0], b[0]]), 'bin', (a, b)))
+            continue
+        v = a[1]
+        if v is not None and is_nat(v):
+            if kind == 'factorial' and v > 400:
+                continue
+            if kind == 'fibonacci' and v > 20000:
+                continue
+        if kind == 'round':
+            mode = r.choice(list(MODES))
+            cases.append((mode, wrap(mode + ' %s', [a[0]]), 'round', a))
+        else:
+            fmt = {'factorial': '%s!', 'fibonacci': 'fib %s', 'words': '%s to words', 'roman': '%s to roman', 'char': '%s to char'}[kind]
+            cases.append((kind, wrap(fmt, [a[0]]), 'un', a))
+    lines = [sx([Sym('eval'), e]) for _, e, _, _ in cases]
+    impl = run_impl(c, lines)
+    # rounding: the model of Value::floor (coefficient rounded, unit kept) and the Coq classifier
+    ridx = [k for k, cs in enumerate(cases) if cs[2] == 'round' and cs[3][1] is not None]
+    def frat(x):
+        return rat(x < 0, canon(abs(x.numerator)), canon(x.denominator))
+    um = dict(zip(ridx, c.model('intfns', [sx([Sym('u-round'), MODES[cases[k][0]], frat(cases[k][3][2]), frat(cases[k][3][3])]) for k in ridx])))
+    uk = dict(zip(ridx, c.model('intfns', [sx([Sym('known-round-unit'), frat(cases[k][3][3])]) for k in ridx])))
+    shown = 0
+    for k, ((op, e, kind, pay), io, line) in enumerate(zip(cases, impl, lines)):
+        i = impl_out(io)
+        c.note_case(line, True, 'L2u-' + op)
+        if i[0] == 'crash':
+            viol(c, 'evaluate-crashed', {'kind': 'impl-crash', 'layer': 'L2', 'expr': e, 'impl': io[:300]})
+            continue
+        if kind == 'bin':
+            a, b = pay
+            if a[1] is None or b[1] is None:
+                sp = ('err',)
+            else:
+                sp = spec_binary(op, a[1], b[1])
+            got = parse_int_text(i[1]) if i[0] == 'ok' else None
+            if sp[0] == 'int':
+                good = got == sp[1]
+            elif sp[0] == 'err':
+                good = i[0] == 'err'
+            else:
+                good = (i[0] == 'err' and 'err' in sp[1]) or (got is not None and got in sp[1])
+        elif kind == 'un':
+            v = pay[1]
+            if v is None or not is_nat(v):
+                good = i[0] == 'err'
+                sp = ('err',)
+            elif op == 'factorial':
+                sp = ('int', math.factorial(int(v))); good = i[0] == 'ok' and parse_int_text(i[1]) == sp[1]
+            elif op == 'fibonacci':
+                sp = ('int', fib(int(v))); good = i[0] == 'ok' and parse_int_text(i[1]) == sp[1]
+            elif op == 'words':
+                sp = ('text', py_words(int(v))); good = i == ('ok', sp[1])
+            elif op == 'roman':
+                sp = ('text', py_roman(int(v))) if 1 <= v <= 10 ** 9 else ('err',)
+                good = i == ('ok', sp[1]) if sp[0] == 'text' else i[0] == 'err'
+            else:
+                sp = ('text', chr(int(v))) if is_scalar(int(v)) else ('err',)
+                good = i == ('ok', sp[1]) if sp[0] == 'text' else i[0] == 'err'
+        else:
+            a = pay
+            if a[1] is None:
+                # a dimensioned quantity: the unit is kept, the coefficient rounded
+                sp = ('coefficient', spec_round(op, a[2]))
+                good = i[0] == 'ok' and parse_int_text(i[1].split(' ')[0]) == sp[1] and ' ' in i[1]
+            else:
+                want = spec_round(op, a[1])
+                sp = ('int', want)
+                got = None
+                if i[0] == 'ok':
+                    t = i[1].strip()
+                    pv = parse_int_text(t[:-1]) if t.endswith('%') else parse_int_text(t)
+                    if pv is not None:
+                        got = Fraction(pv, 100) if t.endswith('%') else Fraction(pv)
+                good = got == want
+                if not good and got is not None:
+                    m = model_out(um.get(k, ''))
+                    in_class = model_out(uk.get(k, '')) == ('val', 1)
+                    same = m[0] == 'ok' and m[1][2] and Fraction(-m[1][1] if m[1][0] else m[1][1], m[1][2]) == got
+                    if in_class and same and c.known_finding('round_unit_scale'):
+                        if shown < 2:
+                            c.sample({'layer': 'L2', 'known': 'round_unit_scale', 'expr': e, 'impl': i[1], 'exact': str(want)})
+                            shown += 1
+                        continue
+        if not good:
+            viol(c, 'unit-argument-' + op + '-wrong', {'kind': 'impl-vs-spec', 'layer': 'L2', 'expr': e, 'impl': io[:300], 'expected': repr(sp)[:300]})
+    c.sample({'layer': 'L2', 'expr': cases[5][1], 'impl': impl[5][:120]})
 
 
 def lit_char(cp):
